@@ -42,6 +42,28 @@ static unsigned g_alloc_calls;  /* allocation requests seen */
 static unsigned g_alloc_failed; /* of which failed */
 static long g_live;             /* live allocations made through the wrappers */
 
+/* cbmc wants compile-time object sizes (a size that is merely *equal* to a
+ * constant but computed through heap fields gives a symbolic-size object:
+ * slow, and cbmc 6.11 aborts while building an error trace). A harness may
+ * define C19_SIZES, a list of the sizes it expects; a request equal to one of
+ * them is served with that constant. Any other request is served as is. */
+#ifndef C19_SIZES
+#define C19_SIZES 0
+#endif
+static void *c19_raw_alloc(size_t n, int zero)
+{
+#ifndef VERIF_REPLAY
+	static const size_t sizes[] = { C19_SIZES };
+	unsigned i;
+
+	for (i = 0; i < sizeof(sizes) / sizeof(sizes[0]); ++i) {
+		if (sizes[i] != 0 && n == sizes[i])
+			return zero ? calloc(1, sizes[i]) : malloc(sizes[i]);
+	}
+#endif
+	return zero ? calloc(1, n) : malloc(n);
+}
+
 static void *c19_malloc(size_t n)
 {
 	void *p;
@@ -50,7 +72,7 @@ static void *c19_malloc(size_t n)
 		g_alloc_failed++;
 		return NULL;
 	}
-	p = malloc(n);
+	p = c19_raw_alloc(n, 0);
 #ifndef VERIF_REPLAY
 	__CPROVER_assume(p != NULL);
 #endif
@@ -66,7 +88,7 @@ static void *c19_calloc(size_t a, size_t b)
 		g_alloc_failed++;
 		return NULL;
 	}
-	p = calloc(a, b);
+	p = c19_raw_alloc(a * b, 1);
 #ifndef VERIF_REPLAY
 	__CPROVER_assume(p != NULL);
 #endif
